@@ -127,27 +127,7 @@ def dispatch(ctx: Ctx) -> None:
     ok_only = all(((d.assign.get(ckey(T1)) or d.assign.get(ckey(T2))) and d.assign.get(ckey(NS)) and (d.assign.get(ckey(S1)) or d.assign.get(ckey(S2)))) for d in early)
     ctx.expect("R-TABLE", fi, "nothing but the two suffixes decides the format without reading the text", ok_only and len(early) >= 2, f"{len(early)} early answers",
                "an answer is given before the text is parsed under conditions other than the .ssc / .sm suffix", node=fi.node)
-    # fallback: first key upper-cased == VERSION
-    good = True
-    seen_fb = 0
-    shown = ""
-    for d in decs:
-        if d.outcome != "from the text" or d.src.end == "raise":
-            continue
-        k_, v = d.src.terminal()
-        seen_fb += 1
-        shown = ast.unparse(v) if v is not None else "None"
-        okp = False
-        if isinstance(v, ast.Tuple) and len(v.elts) == 2:
-            for n in ast.walk(v.elts[1]):
-                if isinstance(n, ast.Compare) and len(n.ops) == 1 and isinstance(n.ops[0], ast.Eq):
-                    l, rr = n.left, n.comparators[0]
-                    for a_, b_ in ((l, rr), (rr, l)):
-                        if (isinstance(a_, ast.Call) and isinstance(a_.func, ast.Attribute) and a_.func.attr == "upper" and isinstance(a_.func.value, ast.Attribute)
-                                and a_.func.value.attr == "key" and isinstance(b_, ast.Constant) and b_.value == "VERSION"):
-                            okp = True
-        good = good and okp
-    ctx.expect("R-TABLE", fi, "fallback: first key upper-cased == 'VERSION'", good and seen_fb > 0, shown, f"fallback answer is {shown}", node=fi.node)
+    _fallback(ctx, fi, decs)
     # the peeked parameter is the FIRST one: next(parser) exactly once
     nx = [c for c in calls(fi) if isinstance(c.func, ast.Name) and c.func.id == "next"]
     ctx.expect("R-TABLE", fi, "the peek reads exactly the first parameter", len(nx) == 1, f"{len(nx)} next() call(s)", f"{len(nx)} next() calls", node=fi.node)
@@ -180,6 +160,54 @@ def dispatch(ctx: Ctx) -> None:
         f_ok = "file" in kw and isinstance(kw["file"], ast.Name) and kw["file"].id in file_names
         ctx.expect("R-FWD", fl, f"{name.rsplit('.', 1)[-1]} parses the stream returned by the detection", f_ok, src(kw.get("file")) if "file" in kw else "",
                    f"file argument is {src(kw['file']) if 'file' in kw else 'absent'}; the detection may have replaced the stream by a re-readable copy", node=r)
+
+
+def _fallback(ctx: Ctx, fi: FunctionInfo, decs) -> None:
+    """fallback of the detection: the text is SSC exactly when its first key, upper-cased, is VERSION (whatever its value)."""
+    good = True
+    seen_fb = 0
+    shown = ""
+    extra = []
+    for d in decs:
+        if d.outcome != "from the text" or d.src.end == "raise":
+            continue
+        k_, v = d.src.terminal()
+        seen_fb += 1
+        shown = ast.unparse(v) if v is not None else "None"
+        okp = False
+        if isinstance(v, ast.Tuple) and len(v.elts) == 2:
+            t = v.elts[1]
+            conj = list(t.values) if (isinstance(t, ast.BoolOp) and isinstance(t.op, ast.And)) else [t]
+            for n in conj:
+                hit = False
+                if isinstance(n, ast.Compare) and len(n.ops) == 1 and isinstance(n.ops[0], ast.Eq):
+                    l, rr = n.left, n.comparators[0]
+                    for a_, b_ in ((l, rr), (rr, l)):
+                        if (isinstance(a_, ast.Call) and isinstance(a_.func, ast.Attribute) and a_.func.attr == "upper" and isinstance(a_.func.value, ast.Attribute)
+                                and a_.func.value.attr == "key" and isinstance(b_, ast.Constant) and b_.value == "VERSION"):
+                            okp = hit = True
+                if not hit:
+                    # the only other accepted conjunct guards the .upper() call: '<param>.key is not None' / '<param>.key'
+                    tx = ast.unparse(n)
+                    if not (tx.endswith(".key is not None") or tx.endswith(".key")):
+                        extra.append(tx)
+        good = good and okp
+    ctx.expect("R-TABLE", fi, "fallback: first key upper-cased == 'VERSION'", good and seen_fb > 0, shown, f"fallback answer is {shown}", node=fi.node)
+    ctx.expect("R-TABLE", fi, "the fallback depends on the first key only", not extra, shown, f"the answer also depends on {sorted(set(extra))}: a text whose first key is VERSION must be detected as SSC whatever else the parameter holds "
+               "(e.g. a key-only '#VERSION;')", node=fi.node)
+
+
+def detection_fallback(ctx: Ctx) -> None:
+    """C02: a serialized SSC simfile (VERSION first) is auto-detected as SSC."""
+    fi = ctx.p.func(DETECT)
+    sp = fi.param_names()[0]
+    from .tables import function_decs, sums_of as tsums, terminal_text
+
+    def out(s_):
+        t = terminal_text(s_)
+        return t if t in (f"return ({sp}, True)", f"return ({sp}, False)") and not any(e.kind in ("except",) or (e.kind == "bind" and e.opaque and "parse_msd" in e.text) for e in s_.effects) else "from the text"
+
+    _fallback(ctx, fi, function_decs(tsums(ctx, fi), out))
 
 
 def funnel(ctx: Ctx) -> None:
